@@ -68,7 +68,7 @@ def gen_case(seed, idx):
     horizon = rng.choice([400, 1000, 2500, 4000, 12000])
     return {
         "seed": seed, "idx": idx, "acts": sorted(acts, key=lambda a: a["t"]), "horizon": horizon,
-        "maxdelay": rng.choice([0, 5, 30]), "peer_period": rng.choice([37, 150, 410]), "peer_tc": rng.random() < 0.5,
+        "maxdelay": rng.choice([0, 5, 30]), "peer_period": rng.choice([37, 150, 410]), "peer_tc": rng.random() < 0.5, "peer_tc_pause": rng.random() < 0.6,
         "close_pick": rng.random(), "close_jitter": rng.choice([0, 0, 0, 1, -1, 7]),
         "late_action": rng.choice([None, None, "register", "browse-tracked", "browse-untracked", "lookup"]), "late_at": rng.choice([0, 1, 60, 124, 126, 249, 250]),
         "second_close_after": rng.choice([5, 100, 600000]), "tail": rng.choice([20000, 7200000, 14400000]),
@@ -82,6 +82,17 @@ def gen_case(seed, idx):
         "addr_mode": rng.choice(["same", "same", "different", "different", "superset", "mixed-family"]),
         "server_mode": rng.choice(["shared", "shared", "shared", "distinct"]),
     }
+
+
+def describe_loop_error(ctx):
+    """what the loop's exception handler was told: exception class, text, and the callback it escaped from"""
+    ex = ctx.get("exception")
+    what = ("%s: %s" % (type(ex).__name__, ex)) if ex is not None else str(ctx.get("message"))
+    h = ctx.get("handle")
+    cb_ = getattr(h, "_callback", None)
+    if cb_ is not None:
+        what += " [in %s]" % getattr(cb_, "__qualname__", cb_)
+    return what[:240]
 
 
 def rec_key(r):
@@ -146,8 +157,10 @@ def simulate(case, close_at, want_blocks=True):
             for addr_ in pr._timers:
                 n_ = len(pr._deferred.get(addr_, ()))
                 tcmin = n_ if tcmin is None else min(tcmin, n_)
+        # ... and the whole list: packets deferred per armed timer, over all of A's listeners (threaded through the model: `c17tcs`)
+        tcs = sorted(len(pr._deferred.get(addr_, ())) for pr in eng.protocols for addr_ in pr._timers)
         return [bool(za.done), bool(a_.transports and all(x.closed for x in a_.transports)), bool(t is not None and not t.cancelled()),
-                bool(rx is None or rx.closed), bool(eng.running_event is not None and eng.running_event.is_set()), tcmin]
+                bool(rx is None or rx.closed), bool(eng.running_event is not None and eng.running_event.is_set()), tcmin, tcs]
 
     orig_block = sim.block
 
@@ -205,6 +218,17 @@ def simulate(case, close_at, want_blocks=True):
             def once():
                 sched = loop_._scheduled
                 live = [h_ for h_ in sched if not h_._cancelled]
+                if case["tie_first"] == "notify" and loop_._ready:
+                    # the same for the last step of a close: `_shutdown_threads()` hands `async_notify_all` to the loop with
+                    # `call_soon_threadsafe`; it runs one iteration after the close returned.  If a timer becomes due while
+                    # that iteration is being prepared (<= 1 ms ahead) it is appended *behind* the notification -- e.g. the timeout
+                    # handle of a task waiting in `Zeroconf.async_wait` (probing), whose future the notification has just resolved
+                    if any(getattr(getattr(r_, "_callback", None), "__self__", None) is za and getattr(r_._callback, "__name__", "") == "async_notify_all"
+                           for r_ in loop_._ready):
+                        for h_ in live:
+                            if 0 < round(h_._when * 1000) - loop_.ms <= 1:
+                                loop_.ms = round(h_._when * 1000)
+                                break
                 if case["tie_first"] == "close" and loop_._ready:
                     # real time passes while callbacks run: a timer that is due within the next millisecond may become due
                     # while something is still queued -- it is then appended *behind* what is queued (here: the close's step)
@@ -212,7 +236,7 @@ def simulate(case, close_at, want_blocks=True):
                         if is_a_cleanup(h_) and 0 < round(h_._when * 1000) - loop_.ms <= 1 and any(
                                 "async_close" in repr(getattr(r_, "_callback", "")) or "async_close" in repr(getattr(r_, "_args", "")) for r_ in loop_._ready):
                             loop_.ms = round(h_._when * 1000)
-                if len(live) > 1:
+                if len(live) > 1 and case["tie_first"] != "notify":
                     w0 = min(round(h_._when * 1000) for h_ in live)
                     same = [h_ for h_ in live if round(h_._when * 1000) == w0]
                     if len(same) > 1:
@@ -232,7 +256,7 @@ def simulate(case, close_at, want_blocks=True):
                     pass
 
             za.async_add_listener(Raw(), None)
-        sim.loop.set_exception_handler(lambda l, ctx: obs["errors"].append([sim.now(), str(ctx.get("exception") or ctx.get("message"))[:200]]))
+        sim.loop.set_exception_handler(lambda l, ctx: obs["errors"].append([sim.now(), describe_loop_error(ctx)]))
 
         def on_send(t, srch, data, addr):
             if srch is a:
@@ -308,6 +332,10 @@ def simulate(case, close_at, want_blocks=True):
                 if k % 5 == 0:
                     out.add_question(DNSQuestion("s1." + TA, const._TYPE_SRV, const._CLASS_IN))
                 zb.async_send(out)
+                if case["peer_tc"] and k % 3 == 0 and case.get("peer_tc_pause"):
+                    # the peer falls silent after a truncated query: nothing else arrives from its address, so A's deferral
+                    # timer (400-500 ms) really fires -- otherwise the next query from the address answers the deferred one
+                    await sim.sleep_ms(560)
                 if sim.now() - t_start > case["horizon"] + 40000:
                     await sim.sleep_ms(600000)   # slow down for the long tail
 
@@ -322,6 +350,10 @@ def simulate(case, close_at, want_blocks=True):
         if close_at is None:
             await sim.sleep_ms(case["horizon"] + 300)
             obs["block_times"] = sorted({e["t"] - t_start for e in sim.events if e["t"] >= t_start})
+            # when A's deferred-truncated-query timers fired, and when its aggregation queues were flushed
+            peer_ = set(obs.get("peer_oids", []))
+            obs["tc_times"] = sorted({e["t"] - t_start for e in sim.events if e["t"] >= t_start and e["kind"] == "tc.respond" and e.get("obj") not in peer_})
+            obs["outq_times"] = sorted({e["t"] - t_start for e in sim.events if e["t"] >= t_start and e["kind"] == "outq.ready" and e.get("obj") not in peer_})
             ptask.cancel()
             stask.cancel()
             for x in bg:
@@ -506,6 +538,31 @@ def gen_aligned_case(seed, idx):
             "listen_socket": rng.random() < 0.6, "addr_mode": "same", "server_mode": "shared", "extra_closes": [], "cancel_first_at": None}
 
 
+def gen_waiter_case(seed, idx):
+    """a close whose last step -- `_shutdown_threads()` -> `notify_all()` -> `call_soon_threadsafe(async_notify_all)`: the waiters are
+    resolved one loop iteration after the close returned -- falls 1 ms before the deadline of a wait that is in progress: the
+    175 ms waits between the probes of a registration (`Zeroconf.async_wait` -> `wait_for_future_set_or_timeout`).  With real
+    time passing while callbacks run, the wait's timeout handle becomes due in the very iteration in which the notification
+    resolves its future, and fires on a finished future before the resumed task can cancel it."""
+    rng = C.rng_for(seed, "c17-waiter", idx)
+    k = rng.choice([1, 2, 3])                 # which of the three waits of the probing service
+    registered_before = rng.random() < 0.5    # another service already registered: the close then takes 250 ms (three goodbyes)
+    acts = []
+    t_reg = 0
+    if registered_before:
+        acts.append({"t": 0, "op": "register", "i": 1, "allow": False})
+        t_reg = rng.choice([900, 1300, 2000])
+    acts.append({"t": t_reg, "op": "register", "i": 0, "allow": False})
+    if rng.random() < 0.4:
+        acts.append({"t": rng.choice([0, 50]), "op": "browse-untracked", "type": TB, "handlers": False})
+    deadline = t_reg + 175 * k
+    return {"seed": seed, "idx": idx, "acts": sorted(acts, key=lambda a_: a_["t"]), "horizon": deadline + 600, "maxdelay": 0,
+            "peer_period": 410, "peer_tc": False, "close_pick": 0.0, "close_jitter": 0,
+            "close_at": deadline - 1 - (250 if registered_before else 0) + rng.choice([0, 0, 0, -1, 1]),
+            "tie_first": "notify", "late_action": None, "late_at": 0, "second_close_after": rng.choice([5, 100]), "tail": 20000,
+            "listen_socket": rng.random() < 0.6, "addr_mode": "same", "server_mode": "distinct", "extra_closes": [], "cancel_first_at": None}
+
+
 def gen_early_case(seed, idx):
     """closes requested while the engine is still starting (endpoints not created yet)"""
     rng = C.rng_for(seed, "c17-early", idx)
@@ -584,7 +641,7 @@ def simulate_early(case):
     vsim.VLoop.create_datagram_endpoint = slow_cde
 
     async def main(sim):
-        sim.loop.set_exception_handler(lambda l, ctx: obs["errors"].append([sim.now(), str(ctx.get("exception") or ctx.get("message"))[:200]]))
+        sim.loop.set_exception_handler(lambda l, ctx: obs["errors"].append([sim.now(), describe_loop_error(ctx)]))
         a = sim.make_host("A", "10.0.0.1", listen_socket=bool(case.get("listen_socket")))
         za = a.zc
         aza = AsyncZeroconf(zc=za)
@@ -783,6 +840,31 @@ KIND = {"recv": "recv", "outq.ready": "outq", "sched.startup": "sched", "sched.r
         "orphan": "task"}
 
 
+def tcs_lines(case, obs):
+    """one `c17tcs` line: for every block of the whole run (A's and the peer's, before and after the close) the listener's armed
+    deferral timers -- packets deferred per timer -- when the block started and when the next block started: the model's `step`
+    must take the one list to the other (arrivals add a packet / a timer or answer and cancel one, a firing timer removes itself,
+    nothing else touches them)"""
+    evs = [e for e in obs["blocks"] if e.get("flags") is not None and len(e["flags"]) > 6 and e["t"] is not None and e["t"] >= obs.get("t_start", 0)]
+    peer = set(obs.get("peer_oids", []))
+    ops, info = [], []
+    final = obs.get("final_flags")
+    for k, e in enumerate(evs):
+        nxt = evs[k + 1]["flags"] if k + 1 < len(evs) else (final if final and len(final) > 6 else None)
+        if nxt is None:
+            continue
+        kind = "orphan" if e["kind"] == "ORPHAN" else e["kind"]
+        kk = KIND.get(kind) or "task"
+        if e.get("obj") in peer:
+            kk = "task"      # a block of the peer: A's timers are not its business
+        before, after = e["flags"][6], nxt[6]
+        if kk == "task" and before == after:
+            continue         # (the bulk: task steps that leave the timers alone)
+        ops.append("%s %s %s %s" % (kk, C.b01(e["flags"][0]), C.natlist(before), C.natlist(after)))
+        info.append((e["t"], kind, before, after))
+    return (["c17tcs %d %s" % (len(ops), " ".join(ops))] if ops else []), info
+
+
 def close_lines(obs):
     """one `c17closes` line: the interleaved steps of all overlapping close calls.  Which model blocks a real task step
     amounts to is read off the functions that ran inside it (markers logged by class-level wrappers); the driver replays
@@ -871,7 +953,16 @@ def close_lines(obs):
     return [line], info
 
 
-def pick_close_time(case, times):
+def pick_close_time(case, times, tc_times=(), outq_times=()):
+    # one case in four aims at a timer that outlives the close: the close is called while a truncated query is deferred (its
+    # timer fires 1 .. 399 ms later, i.e. while the close is in its goodbye phase or after it returned), or while answers wait
+    # in an aggregation queue
+    if case["close_pick"] < 0.25:
+        pool = [t for t in tc_times if t <= case["horizon"]] or [t for t in outq_times if t <= case["horizon"]]
+        if pool:
+            k = int(case["close_pick"] / 0.25 * len(pool) * 4)
+            t = pool[(k // 4) % len(pool)]
+            return max(0, t - [1, 60, 260, 399][k % 4])
     if not times:
         return 0
     if case["close_pick"] < 0.85:
@@ -886,7 +977,7 @@ def run_case(res, case, ctx, acc):
         close_at = 0
     dry = simulate(case, None) if close_at is None else None
     if close_at is None:
-        close_at = pick_close_time(case, [t for t in dry["block_times"] if t <= case["horizon"]])
+        close_at = pick_close_time(case, [t for t in dry["block_times"] if t <= case["horizon"]], dry.get("tc_times", ()), dry.get("outq_times", ()))
     obs = simulate(case, close_at)
     res.evaluations += 1
     for a in case["acts"]:
@@ -920,6 +1011,9 @@ def flush_model(res, ctx, acc):
         ls, info = block_lines(case, obs)
         spans.append((case, obs, info, len(lines), len(ls)))
         lines += ls
+        tl, tinfo = tcs_lines(case, obs)
+        spans.append((case, obs, ("tcs", tinfo), len(lines), len(tl)))
+        lines += tl
         cl, cinfo = close_lines(obs)
         spans.append((case, obs, ("closes", cinfo), len(lines), len(cl)))
         lines += cl
@@ -939,6 +1033,18 @@ def flush_model(res, ctx, acc):
             py = st["done"] and st["transports_closed"] and st["cleanup_cancelled"]
             if out[a] != C.b01(py):
                 res.disagree("c17closed", {"case": case}, C.b01(py), out[a])
+            continue
+        if isinstance(info, tuple) and info[0] == "tcs":
+            verdicts = out[a].split(";")
+            if len(verdicts) != len(info[1]):
+                res.disagree("c17tcs", {"case": case}, "%d blocks" % len(info[1]), out[a][:200])
+                continue
+            for (t, kind, before, after), v in zip(info[1], verdicts):
+                if before != after:
+                    res.count("tc-timers-threaded:" + kind.split(":")[0] + (":+" if len(after) > len(before) or sum(after) > sum(before) else ":-"))
+                if v != "ok":
+                    res.disagree("c17tcs", {"case": case, "block": [t, kind]}, "armed deferral timers %s -> %s" % (before, after), v)
+                    break
             continue
         if isinstance(info, tuple):
             cinfo = info[1]
@@ -992,6 +1098,10 @@ def run(ctx):
             continue
         if idx % 8 == 5:
             run_early_case(res, gen_early_case(ctx["seed"], idx), ctx, acc)
+            continue
+        if idx % 8 == 7:
+            run_case(res, gen_waiter_case(ctx["seed"], idx), ctx, acc)
+            res.count("notification-meets-wait-deadline")
             continue
         case = gen_case(ctx["seed"], idx)
         run_case(res, case, ctx, acc)
